@@ -753,6 +753,59 @@ func detGlobalWrites(r *Run, sc *Scopes, S []*ssa.Function) {
 			r.Bad("R4", key, P.Pos(instrPos(in)), "consensus-reachable code writes package-level variable "+g.Name()+" (process-local state that can influence later blocks)", sc.S.Chain(fn)...)
 		})
 	}
+	// delete()/clear() on a package-level map, and a package-level map handed to a function that writes into it
+	globalMap := func(v ssa.Value) *ssa.Global {
+		var g *ssa.Global
+		backSlice(v).Any(func(x ssa.Value) bool {
+			if gg, ok := x.(*ssa.Global); ok && gg.Pkg != nil && isHaqqPath(gg.Pkg.Pkg.Path()) {
+				if _, isMap := deref(gg.Type()).Underlying().(*types.Map); isMap {
+					g = gg
+				}
+			}
+			return g != nil
+		})
+		return g
+	}
+	for _, fn := range S {
+		if isGeneratedFile(P.FileOf(fnPos(fn))) || fn.Name() == "init" || strings.HasPrefix(fn.Name(), "init#") {
+			continue
+		}
+		eachInstr(fn, func(in ssa.Instruction) {
+			c, ok := in.(ssa.CallInstruction)
+			if !ok {
+				return
+			}
+			report := func(g *ssa.Global, how string) {
+				n++
+				key := fmt.Sprintf("%s#write-%s.%s", fnID(fn), strings.TrimPrefix(g.Pkg.Pkg.Path(), haqqMod+"/"), g.Name())
+				if reason, ok := globalWriteExceptions[key]; ok {
+					r.OK("R4", key, P.Pos(instrPos(in)), "tabled exception: "+reason)
+					return
+				}
+				r.Bad("R4", key, P.Pos(instrPos(in)), "consensus-reachable code "+how+" the package-level map "+g.Name()+" (process-local state shared by every transaction, simulation and CheckTx of the process)", sc.S.Chain(fn)...)
+			}
+			if b, isB := c.Common().Value.(*ssa.Builtin); isB {
+				if (b.Name() == "delete" || b.Name() == "clear") && len(c.Common().Args) > 0 {
+					if g := globalMap(c.Common().Args[0]); g != nil {
+						report(g, "removes entries from")
+					}
+				}
+				return
+			}
+			callee := c.Common().StaticCallee()
+			if callee == nil || !isHaqqPath(fnPkgPath(callee)) {
+				return
+			}
+			mp := mutatesMapParam(callee)
+			for i, a := range c.Common().Args {
+				if mp[i] {
+					if g := globalMap(a); g != nil {
+						report(g, "hands to the writer "+fnID(callee))
+					}
+				}
+			}
+		})
+	}
 	if n == 0 {
 		r.OK("R4", "scope-S", "", fmt.Sprintf("no package-level variable is written in %d consensus-scope functions", len(S)))
 	}
